@@ -517,8 +517,8 @@ def check_function(fail, prop, q, f, decl, path, safe, is_method, opts, is_ctor=
                     fail("C07", f"{q}: results {[n for n, _ in res]} for a function without annotation or return value", decl=q)
             else:
                 rets = f["returns"]["rets"]
-                width = max(len(r) for r in rets)
-                all_none = all(v[1] == "None" for r in rets for v in r)
+                width = max([len(r) for r in rets] + [0])
+                all_none = all(v[1] == "None" for r in rets for v in r) or not rets
                 if not all_none or res:
                     for i in range(width):
                         need = set()
